@@ -7,6 +7,7 @@ import ChythonModel.Proofs.C09Layout
 import ChythonModel.Proofs.C09Faithful
 import ChythonModel.Proofs.C09Top
 import ChythonModel.Proofs.C09Final
+import ChythonModel.Proofs.C09Scratch
 /-!
 # C09 — compiled (bit-mask) matcher ≡ reference matcher: property theorems
 
@@ -292,6 +293,27 @@ theorem component_search_eq {q : LQuery} {m : LMol} {cl : Iso.Closures} {lq : Li
     (hpairs : ∀ p ∈ q.atoms, ∀ r ∈ m.atoms, NoHeavyClash p.2 r.2 ∧ HKnown p.2 r.2) :
     getMappingC cm cq (scopeArray m cand) = Iso.getMapping (envOfP q m cl lq cand) :=
   getMappingC_eq_python c cand hpairs
+
+/-- **`scratch_array_is_clean`**: the `.pyx` matcher transcribed with its scratch array `closures[]` as explicit state (allocated and
+    zeroed once; written by the fill loop of a candidate, read by the comparison loop, zeroed by the last loop of the block) finds the
+    array all-zero at every candidate, so it yields exactly what the matcher with the array read as a local function yields.
+    The model the driver runs (`cythonPathS`) is therefore the one the theorems are about (`cythonPath`). -/
+theorem scratch_array_is_clean :
+    (∀ (m : CMol) (q : CQuery) (scope : List Bool), getMappingCS m q scope = getMappingC m q scope) ∧
+    (∀ (q : LQuery) (m : LMol) (tComps : List (List Nat)) (scope : Option (List Nat)) (autoF : Bool),
+      cythonPathS q m tComps scope autoF = cythonPath q m tComps scope autoF) := by
+  refine ⟨getMappingCS_eq, ?_⟩
+  intro q m tComps scope autoF
+  unfold cythonPathS cythonPath
+  have : getMappingCS = getMappingC := by funext m q scope; exact getMappingCS_eq m q scope
+  rw [this]
+
+/-- one candidate: from an all-zero array the literal closure block returns the verdict of `closureC` and leaves the array all-zero -/
+theorem closure_block_restores_scratch (m : CMol) (q : CQuery) (qa : CQAtom) (mAtom : CAtom) (n : Nat) (matched : List Bool)
+    (path : List Nat) (N : Nat) (hp : ∀ x ∈ path, x < N) :
+    closureCS m q qa mAtom n matched path (List.replicate N 0) =
+      (closureC m q qa mAtom n matched path).map (fun b => (b, List.replicate N 0)) :=
+  closureCS_clean m q qa mAtom n matched path N hp
 
 /-- `_compile_query` never records two closure lists for the same atom (keys of the closures dict are distinct) -/
 theorem compile_closure_keys_distinct (g : Iso.Graph) (comps : List (List Iso.Step)) (cl : Iso.Closures)
